@@ -113,9 +113,9 @@ async def _size(
                 [
                     "find -L ",
                     (
-                        " ".join([f'"{p}"' for p in path])
+                        " ".join([shlex.quote(p) for p in path])
                         if isinstance(path, MutableSequence)
-                        else f'"{path}"'
+                        else shlex.quote(path)
                     ),
                     " -type f -exec ls -ln {} \\+ | ",
                     "awk 'BEGIN {sum=0} {sum+=$5} END {print sum}'; ",
@@ -779,7 +779,7 @@ class RemoteStreamFlowPath(
                 "".join(
                     [
                         "find -L ",
-                        f'"{self.__str__()}"',
+                        shlex.quote(self.__str__()),
                         " -type f -exec ls -ln {} \\+ | ",
                         "awk 'BEGIN {sum=0} {sum+=$5} END {print sum}'; ",
                     ]
